@@ -102,9 +102,6 @@ func (e *rangeEnv) eval(min, max, answer int) (sig, detail string, port int) {
 	if e.sr.bad != "" {
 		sig, detail = "range:rand-misuse", e.sr.bad
 	}
-	if sig == "" && (len(e.sr.Ns) != 1 || e.sr.Ns[0] != want) {
-		sig, detail = "range:intn-arg!=range-size", fmt.Sprintf("Intn called with %v, range size %d", e.sr.Ns, want)
-	}
 	if res.err != nil || res.isNil {
 		if res.conn != nil {
 			_ = res.conn.Close()
@@ -128,6 +125,11 @@ func (e *rangeEnv) eval(min, max, answer int) (sig, detail string, port int) {
 		sig, detail = "range:advertised-port!=bound", fmt.Sprintf("advertised %d bound %d", aport, lport)
 	case !aip.Equal(e.relayIP):
 		sig, detail = "range:advertised-ip!=relay-address", fmt.Sprintf("advertised %v", aip)
+	case len(e.sr.Ns) != 1 || e.sr.Ns[0] != want:
+		// secondary: the port was fine for this answer, but the generator does not
+		// draw from exactly Max-Min+1 values (more: some answer leaves the range;
+		// fewer: some port of the range is never handed out)
+		sig, detail = "range:intn-arg!=range-size", fmt.Sprintf("Intn called with %v, range size %d", e.sr.Ns, want)
 	}
 	if e.stub != nil {
 		// the port handed to ListenPacket / Listen is what the stub reports as bound
